@@ -32,6 +32,9 @@ pub use traits::ToLeanString;
 
 mod features;
 
+#[cfg(feature = "verif-hooks")]
+pub mod verif_hooks;
+
 /// Compact, clone-on-write, UTF-8 encoded, growable string type.
 #[repr(transparent)]
 pub struct LeanString(Repr);
@@ -877,6 +880,13 @@ impl LeanString {
     #[inline]
     pub fn is_heap_allocated(&self) -> bool {
         self.0.is_heap_buffer()
+    }
+
+    /// Verification observer: the reference count of the heap buffer, `None` if not on the heap.
+    #[cfg(feature = "verif-hooks")]
+    #[doc(hidden)]
+    pub fn verif_refcount(&self) -> Option<usize> {
+        self.0.verif_refcount()
     }
 }
 
